@@ -227,9 +227,26 @@ type AgeCase struct {
 	SetupErr string  `json:"setup_err,omitempty"`
 }
 
+// LongIdleCase: one connection per tunnel mode that stays idle for slightly
+// longer than a bound in time that appeared in the source, then goes on in
+// both directions.  Only run when the translator found such a new bound.
+type LongIdleMode struct {
+	Mode     string  `json:"mode"`
+	Before   ConcDir `json:"before"` // the application's first reply as the client got it
+	AfterC2A ConcDir `json:"after_c2a"`
+	AfterA2C ConcDir `json:"after_a2c"`
+	SetupErr string  `json:"setup_err,omitempty"`
+}
+
+type LongIdleCase struct {
+	IdleMs int            `json:"idle_ms"`
+	Modes  []LongIdleMode `json:"modes"`
+}
+
 type Case struct {
 	I      int        `json:"i"`
 	Stream string     `json:"stream"`
+	LongIdle *LongIdleCase `json:"longidle,omitempty"`
 	Age    *AgeCase   `json:"age,omitempty"`
 	Idle   *IdleCase  `json:"idle,omitempty"`
 	Conc   *ConcCase  `json:"conc,omitempty"`
@@ -1271,6 +1288,85 @@ func runIdle(r *hx.Rng, mode string, levels []int) *IdleCase {
 	return res
 }
 
+// ---- longidle stream ----
+
+var idleMs = 0
+
+func runLongIdleMode(mode string, idle time.Duration) LongIdleMode {
+	res := LongIdleMode{Mode: mode}
+	const n = 1024
+	lookup := func(domain string) (*sniproxy.Dest, error) {
+		if domain == "longidle.example" {
+			return &sniproxy.Dest{Name: "/ep0"}, nil
+		}
+		return nil, fmt.Errorf("bad domain %q", domain)
+	}
+	appC2A := make(chan ConcDir, 1)
+	handler := func(ep string, conn net.Conn) {
+		defer conn.Close()
+		conn.SetDeadline(time.Now().Add(idle + 40*time.Second))
+		br := bufio.NewReader(conn)
+		if _, err := e2e.ReadRecord(br); err != nil {
+			return
+		}
+		buf := make([]byte, n)
+		if _, err := io.ReadFull(br, buf); err != nil {
+			return
+		}
+		conn.Write(tagged('A', 1, n))
+		// after the idle time the client speaks again
+		k, rerr := io.ReadFull(br, buf)
+		appC2A <- checkTagged('C', 2, n, buf[:k], rerr)
+		conn.Write(tagged('A', 2, n))
+		io.Copy(io.Discard, br)
+	}
+	w, err := e2e.NewWorld(mode, lookup, []string{"/ep0"}, handler)
+	if err != nil {
+		res.SetupErr = err.Error()
+		return res
+	}
+	defer w.Close()
+	conn, err := w.DialFront()
+	if err != nil {
+		res.SetupErr = "front dial: " + err.Error()
+		return res
+	}
+	defer conn.Close()
+	conn.SetDeadline(time.Now().Add(idle + 40*time.Second))
+	conn.Write(append(append([]byte{}, e2e.SynthHello("longidle.example", true, 0)...), tagged('C', 1, n)...))
+	buf := make([]byte, n)
+	k, rerr := io.ReadFull(conn, buf)
+	res.Before = checkTagged('A', 1, n, buf[:k], rerr)
+	if !res.Before.Complete {
+		return res
+	}
+	time.Sleep(idle) // neither side closes, neither side speaks
+	conn.Write(tagged('C', 2, n))
+	select {
+	case res.AfterC2A = <-appC2A:
+	case <-time.After(10 * time.Second):
+		res.AfterC2A = ConcDir{Sent: n, FirstDiff: -1, PrefixOK: true, Err: "nothing arrived at the application within 10 s"}
+	}
+	conn.SetReadDeadline(time.Now().Add(10 * time.Second))
+	k, rerr = io.ReadFull(conn, buf)
+	res.AfterA2C = checkTagged('A', 2, n, buf[:k], rerr)
+	return res
+}
+
+func runLongIdle(ms int) *LongIdleCase {
+	res := &LongIdleCase{IdleMs: ms, Modes: make([]LongIdleMode, len(e2e.Modes))}
+	var wg sync.WaitGroup
+	for i, mode := range e2e.Modes {
+		wg.Add(1)
+		go func(i int, mode string) {
+			defer wg.Done()
+			res.Modes[i] = runLongIdleMode(mode, time.Duration(ms)*time.Millisecond)
+		}(i, mode)
+	}
+	wg.Wait()
+	return res
+}
+
 // ---- age stream: a pending read grows old in call ids ----
 
 var ageCalls = 1<<17 + 1000
@@ -1713,6 +1809,9 @@ func plan(seed uint64, n, e2eN int, big, huge bool) []spec {
 	for i := 0; i < 10; i++ {
 		ss = append(ss, spec{stream: "stage", seed: r.U64(), a: 2})
 	}
+	if idleMs > 0 { // a new bound in time appeared in the source: idle past it
+		ss = append(ss, spec{stream: "longidle", seed: r.U64(), a: idleMs})
+	}
 	// a read that stays pending while many newer calls pass (multiplexed tunnel)
 	ss = append(ss, spec{stream: "age", seed: r.U64(), mode: "legacy", a: ageCalls})
 	// many open, silent sessions of one endpoint, then an active one
@@ -1828,6 +1927,8 @@ func runSpec(i int, s spec) (c Case) {
 		c.Stage = runStage(r, s.a)
 	case "conc":
 		c.Conc = runConc(r, s.mode, 8, s.a, s.b)
+	case "longidle":
+		c.LongIdle = runLongIdle(s.a)
 	case "age":
 		c.Age = runAge(r, s.mode, s.a)
 	case "idle":
@@ -1869,6 +1970,7 @@ func main() {
 	e2eN := flag.Int("e2e", 30, "number of generated end-to-end cases (after the corpus)")
 	big := flag.Bool("big", false, "include the 1 MiB + 3 payloads end to end")
 	huge := flag.Bool("huge", false, "include 4 MiB + 1 and 16 MiB + 5 payloads end to end")
+	flag.IntVar(&idleMs, "idlems", 0, "keep one connection per mode idle for this long (longidle stream; 0: none)")
 	flag.IntVar(&ageCalls, "agecalls", ageCalls, "newer calls that pass while a read is pending (age stream)")
 	child := flag.Bool("child", false, "child mode")
 	from := flag.Int("from", 0, "first case (child)")
@@ -1891,7 +1993,7 @@ func main() {
 		return
 	}
 	args := []string{"-seed", strconv.FormatUint(*seed, 10), "-n", strconv.Itoa(*n), "-e2e", strconv.Itoa(*e2eN),
-		"-agecalls", strconv.Itoa(ageCalls)}
+		"-agecalls", strconv.Itoa(ageCalls), "-idlems", strconv.Itoa(idleMs)}
 	if *big {
 		args = append(args, "-big")
 	}
